@@ -175,6 +175,55 @@ func cmdCheck(args []string) int {
 		allObls = append(allObls, vo)
 		rep.Obligations++
 	}
+	// lemmas tagged with this property: proved from the axioms and earlier lemmas alone
+	{
+		var lc *Ctx
+		for _, f := range p.Specs.Facts {
+			if f.Kind != "lemma" || !f.Clause.HasProp(*prop) {
+				continue
+			}
+			if lc == nil {
+				lc = NewCtx(p, "lemmas")
+			}
+			c := NewCtx(p, "lemma:"+f.Clause.Label)
+			st := &State{comps: map[string]Term{}}
+			bad := false
+			for _, g := range p.Specs.Facts {
+				if g == f {
+					break
+				}
+				e := &Env{c: c, st: st, bind: map[string]TV{}, file: g.File}
+				if g.File.PkgPath != "" {
+					e.pkg = p.typesPkg(g.File.PkgPath)
+				}
+				if g.File.PkgPath != "" && g.File.PkgPath != f.File.PkgPath {
+					continue
+				}
+				t, err := e.Bool(g.Clause.E)
+				if err != nil {
+					continue
+				}
+				c.assert(t)
+				if g.Kind == "axiom" {
+					assumed["axiom ["+g.Clause.Label+"]: "+g.Clause.Src] = true
+				}
+			}
+			e := &Env{c: c, st: st, bind: map[string]TV{}, file: f.File}
+			if f.File.PkgPath != "" {
+				e.pkg = p.typesPkg(f.File.PkgPath)
+			}
+			t, err := e.Bool(f.Clause.E)
+			o := &Obligation{Name: "lemma/" + f.Clause.Label, Kind: "lemma", Label: f.Clause.Label, Props: f.Clause.Props, PC: "true", Goal: t, Where: f.Clause.Where, Src: f.Clause.Src}
+			if err != nil {
+				o.Status, o.Output, o.Goal = "error", "lemma does not bind: "+err.Error(), "false"
+				bad = true
+			}
+			_ = bad
+			o.CtxLen = len(c.lines)
+			allObls = append(allObls, o)
+			oblCtx[o] = c
+		}
+	}
 	// solve
 	var todo []*Obligation
 	for _, o := range allObls {
